@@ -50,6 +50,9 @@ func (d *SimulatedOCR3Database) WriteConfig(_ context.Context, config types.Cont
 
 // In case the key is not found, nil should be returned.
 func (d *SimulatedOCR3Database) ReadProtocolState(ctx context.Context, configDigest types.ConfigDigest, key string) ([]byte, error) {
+	d.mu.RLock()
+	defer d.mu.RUnlock()
+
 	// might need to check against latest config digest or scope to digest
 	val, ok := d.protoState[key]
 	if !ok {
@@ -61,6 +64,9 @@ func (d *SimulatedOCR3Database) ReadProtocolState(ctx context.Context, configDig
 
 // Writing with a nil value is the same as deleting.
 func (d *SimulatedOCR3Database) WriteProtocolState(ctx context.Context, configDigest types.ConfigDigest, key string, value []byte) error {
+	d.mu.Lock()
+	defer d.mu.Unlock()
+
 	d.protoState[key] = value
 
 	// might need to check against latest config digest or scope to digest
